@@ -7,7 +7,8 @@ removed exactly when its target is absent or censored; neighbour canonicalised e
 lockstep, the best-path walk never repeats a node, sequence_of_path spells nodes with a K-1 overlap in the given
 orientation; and for graphs produced by compression: the node builders' terminal-extension tables (taken from the last
 path k-mer / node, complemented when traversed flipped) and the complete step tables of both routes (a node that absorbs a
-palindrome or a branch has an edge with no way back)."""
+palindrome or a branch has an edge with no way back).
+Added later: the graph driver's censor handling, both chain tables, the flank tables of read pieces."""
 from .. import dt_msp, dt_graph, dt_compress, dt_tables, dt_filter
 from . import common
 
